@@ -110,7 +110,8 @@ contract(
             "games_per_combo == D // (n - 1) and "
             "implies(result == 0, forall(a, 0, n, forall(b, 0, a, pair_ok(y, a, b, D, games_per_combo))))"),
     ],
-    must_fail=["result == 0"],
+    # neither "always zero" nor "never zero" may be provable: the clauses of the form `result == 0 implies ...` are not vacuous
+    must_fail=["result == 0", "result > 0"],
 )
 
 
@@ -521,3 +522,55 @@ contract(
 )
 lemma("divmod_unique", {"q": "int", "d": "int", "r": "int"}, ["d >= 1", "0 <= r", "r < d"],
       "(q * d + r) // d == q and (q * d + r) % d == r", note="uniqueness of Euclidean division")
+
+
+# ====================================================================== C07: separation clause (result == 0 implies ...)
+# trin(b) = b (b - 1) / 2 as a linear recurrence: the slot of the pair (a, b), a < b, in the triangular table is trin(b) + a
+spec("trin(b)", "0 if b <= 0 else trin(b - 1) + (b - 1)", ptypes=["int"], qdef=True)
+lemma("trin_closed", {"b": "int"}, ["b >= 0"], "2 * trin(b) == b * (b - 1)", induct="b", base="0")
+lemma("trin_mono", {"b": "int", "c": "int"}, ["0 <= b", "b <= c"], "trin(b) <= trin(c) and trin(c) >= 0", induct="c", base="b",
+      uses=["trin_nonneg(b)"])
+lemma("trin_nonneg", {"b": "int"}, [], "trin(b) >= 0", induct="b", base="0")
+# different pairs use different slots
+lemma("trin_inj", {"a": "int", "b": "int", "a0": "int", "b0": "int"},
+      ["0 <= a", "a < b", "0 <= a0", "a0 < b0", "not (a == a0 and b == b0)"],
+      "trin(b) + a != trin(b0) + a0",
+      uses=["trin_mono(b + 1, b0)", "trin_mono(b0 + 1, b)"])
+# meets / prevmeet: team a plays team b (either role) on day d; the last such day before d (-1 if none)
+spec("meets(y, a, b, d)", "y[d, a] == b + 1 or y[d, a] == -(b + 1)", ret="bool")
+spec("prevmeet(y, a, b, d)", "-1 if d <= 0 else (d - 1 if meets(y, a, b, d - 1) else prevmeet(y, a, b, d - 1))",
+     ptypes=["arr2", "int", "int", "int"], qdef=True)
+lemma("pm_range", {"y": "arr2", "a": "int", "b": "int", "d": "int"}, [], "-1 <= prevmeet(y, a, b, d) and prevmeet(y, a, b, d) < max(d, 0)",
+      induct="d", base="0")
+lemma("pm_ge", {"y": "arr2", "a": "int", "b": "int", "d": "int", "D": "int"}, ["0 <= d", "d < D", "meets(y, a, b, d)"],
+      "prevmeet(y, a, b, D) >= d", induct="D", base="d + 1")
+lemma("trin_up", {"c": "int", "n": "int"}, ["0 <= c"], "forall(b, c, n, trin(c) <= trin(b))", induct="n", base="c")
+lemma("trin_dn", {"c": "int"}, [], "forall(b, 0, c, trin(b + 1) <= trin(c))", induct="c", base="0")
+lemma("trin_inj_all", {"a0": "int", "b0": "int", "n": "int"}, ["0 <= a0", "a0 < b0", "b0 < n"],
+      "forall(b, 1, n, forall(a, 0, b, implies(not (a == a0 and b == b0), trin(b) + a != trin(b0) + a0)))",
+      uses=["trin_up(b0 + 1, n)", "trin_dn(b0)"],
+      note="the slot of a pair in the triangular table is not the slot of any other pair")
+
+spec("sepd(y, a, b, d, smin, smax)", "implies(meets(y, a, b, d) and prevmeet(y, a, b, d) >= 0, "
+     "smin <= d - prevmeet(y, a, b, d) - 1 and d - prevmeet(y, a, b, d) - 1 <= smax)", ret="bool")
+_c = CONTRACTS[ER + ":count_errors"]
+_c.loops["0"].inv.append(tag("C07", "zero-implies-separation-table",
+    "implies(errors == 0, forall(b, 1, n, forall(a, 0, b, temp_1[trin(b) + a] == (prevmeet(y, a, b, D) if a < team_1 else -1))))"))
+_c.loops["0"].inv.append(tag("C07", "zero-implies-separations-in-range",
+    "implies(errors == 0, forall(a, 0, team_1, forall(b, a + 1, n, forall(d, 0, D, sepd(y, a, b, d, separation_min, separation_max)))))"))
+_c.loops["0.0"].inv.append(tag("C07", "zero-implies-separation-table",
+    "implies(errors == 0, forall(b, 1, n, forall(a, 0, b, temp_1[trin(b) + a] == "
+    "(prevmeet(y, a, b, D) if a < team_1 else (prevmeet(y, a, b, day) if a == team_1 else -1)))))"))
+_c.loops["0.0"].inv.append(tag("C07", "zero-implies-separations-in-range",
+    "implies(errors == 0, forall(b, team_1 + 1, n, forall(d, 0, day, sepd(y, team_1, b, d, separation_min, separation_max))) and "
+    "forall(a, 0, team_1, forall(b, a + 1, n, forall(d, 0, D, sepd(y, a, b, d, separation_min, separation_max)))))"))
+_c.lemmas_at["after if #16"] = ["trin_closed(team_1)", "trin_closed(team_2)"]
+_c.asserts["after assign idx #0"] = [tag("C07", "slot-of-the-pair",
+    "idx == (trin(team_1) + team_2 if team_1 > team_2 else trin(team_2) + team_1)")]
+_c.lemmas_at["after assign idx #0"] = ["trin_mono((team_1 if team_1 > team_2 else team_2) + 1, n)", "trin_closed(n)",
+                                       "trin_nonneg(team_1)", "trin_nonneg(team_2)"]
+_c.lemmas_at["after assign last_time #0"] = [
+    "trin_inj_all(team_2 if team_1 > team_2 else team_1, team_1 if team_1 > team_2 else team_2, n)",
+    "pm_range(y, team_1, team_2, day)", "pm_ge(y, team_2, team_1, day, D)"]
+_c.ensures.append(tag("C07", "zero-implies-repeated-pairings-respect-the-separation-limits",
+    "implies(result == 0, forall(a, 0, n, forall(b, a + 1, n, forall(d, 0, D, sepd(y, a, b, d, separation_min, separation_max)))))"))
